@@ -289,6 +289,7 @@ def sm2Dispatch (toks : List String) : Option String :=
   | "ecsmulseq" :: r => some (ecsmulseq r)
   | "eckeyok" :: r => some (eckeyok r)
   | "sm2sign" :: r => some (sm2sign r) | "sm2signder" :: r => some (sm2signder r)
+  | ["sm2signi", d, uid, msg, rnd, _, _] => some (sm2sign [d, uid, msg, rnd])   -- interleaved with another signer: the same pair
   | "sm2verify" :: r => some (sm2verify r) | "sm2verifyder" :: r => some (sm2verifyder r)
   | "sm2enc" :: r => some (sm2enc r) | "sm2dec" :: r => some (sm2dec r)
   | "sm2verifye" :: r => some (sm2verifye r)
